@@ -63,6 +63,9 @@ type Session struct {
 	Tag    string
 	Defs   []*Def
 	Inputs []*Expr
+	// definitions of which EVERY execution writes an existing root binding (Writers), or calls such a definition
+	// (Callers): the generator asserts it; no call of theirs may ever be remembered (model-free store oracle)
+	Writers, Callers []int
 }
 
 func vi(z int64) Val   { return Val{K: 'i', Z: z} }
@@ -506,63 +509,76 @@ func runRepl(s *Session, off bool) []string {
 	return res
 }
 
-// rebinds tells whether, in the inputs before index upTo, a name that held a function was bound again, or
-// whether some function body rebinds / deletes names (then a remembered caller may be stale: the one known finding).
+// rebinds decides whether a cache on/off difference at input upTo can be the ONE known finding (a remembered caller whose
+// callee was rebound): some definition C calls a global function by name n (callee position, not its own name, not
+// self, not a parameter) and n was bound again after having held a function - at the top level before that input, or
+// by the body of ANOTHER definition W. A function that itself reads and rewrites the binding it calls does not
+// qualify (it must never be remembered at all: that is the store oracle below), nor do writes to data variables.
 func (s *Session) rebinds(upTo int) bool {
-	held := map[string]bool{}
-	var inner func(e *Expr, top bool) bool
-	inner = func(e *Expr, top bool) bool {
-		switch e.K {
-		case 'A':
-			if !top {
-				return true
+	// names written by each definition body (assignment, named function literal, del)
+	written := make([]map[string]bool, len(s.Defs))
+	callees := make([]map[string]bool, len(s.Defs))
+	for di, d := range s.Defs {
+		w, cs := map[string]bool{}, map[string]bool{}
+		var walk func(e *Expr)
+		walk = func(e *Expr) {
+			switch e.K {
+			case 'A', 'D':
+				w[e.X] = true
+			case 'F':
+				if n := s.Defs[e.D].Name; n != "" {
+					w[n] = true
+				}
+			case 'C':
+				if f := e.Sub[0]; f.K == 'V' && f.X != "self" && f.X != d.Name && !member(f.X, d.Params) {
+					cs[f.X] = true
+				}
 			}
-		case 'F':
-			if !top && s.Defs[e.D].Name != "" {
-				return true
-			}
-		case 'D':
-			if !top {
-				return true
+			for _, x := range e.Sub {
+				walk(x)
 			}
 		}
-		for _, x := range e.Sub {
-			if inner(x, false) {
-				return true
-			}
-		}
-		return false
+		walk(d.Body)
+		written[di], callees[di] = w, cs
 	}
-	for _, d := range s.Defs {
-		if inner(d.Body, false) {
-			return true
-		}
-	}
-	hit := false
-	var walk func(e *Expr)
-	walk = func(e *Expr) {
+	// names rebound at the top level before the input, after having held a function
+	held, top := map[string]bool{}, map[string]bool{}
+	var walkTop func(e *Expr)
+	walkTop = func(e *Expr) {
 		switch e.K {
 		case 'A':
 			if held[e.X] {
-				hit = true
+				top[e.X] = true
 			}
 			held[e.X] = e.Sub[0].K == 'F' || e.Sub[0].K == 'C' || e.Sub[0].K == 'V'
 		case 'F':
 			if n := s.Defs[e.D].Name; n != "" {
 				if held[n] {
-					hit = true
+					top[n] = true
 				}
 				held[n] = true
 			}
 		}
 		for _, x := range e.Sub {
-			walk(x)
+			walkTop(x)
 		}
 	}
 	for i := 0; i < upTo && i < len(s.Inputs); i++ {
-		walk(s.Inputs[i])
+		walkTop(s.Inputs[i])
 	}
-	return hit
+	for ci := range s.Defs {
+		for n := range callees[ci] {
+			if top[n] {
+				return true
+			}
+			for wi := range s.Defs {
+				if wi != ci && written[wi][n] {
+					return true
+				}
+			}
+		}
+	}
+	return false
 }
 
 func (s *Session) text() string {
@@ -592,6 +608,30 @@ func (c *Ctx2) session(s *Session) {
 	c.Case(lineOff, obsLine(closed, offr))
 	if len(on) > 0 && on[len(on)-1].N > 0 {
 		c.NonTrivial(s.text())
+	}
+	// store oracle (model-free): a call that writes an outer binding, or calls one that does, is never remembered
+	for i, sg := range on {
+		bad := ""
+		for _, e := range sg.Entries {
+			for _, w := range s.Writers {
+				if strings.HasPrefix(e, Hx([]byte(s.Defs[w].Key))+"(") {
+					bad = "remembered:call-that-writes-outer-binding"
+				}
+			}
+			for _, w := range s.Callers {
+				if bad == "" && strings.HasPrefix(e, Hx([]byte(s.Defs[w].Key))+"(") {
+					bad = "remembered:caller-of-outer-writer"
+				}
+			}
+			if bad != "" {
+				c.Count("diff=" + bad)
+				c.Fail(bad, s.text(), fmt.Sprintf("after input %d %q the cache holds %s", i, s.Inputs[i].src(s), e))
+				break
+			}
+		}
+		if bad != "" {
+			break
+		}
 	}
 	// direct oracle: cache on vs cache off, per input
 	for i := range on {
@@ -695,6 +735,17 @@ func corpus() []*Session {
 	mk("regress:function-rebound-in-call", func(s *Session) {
 		s.Inputs = []*Expr{asg("g", s.fn("", nil, li(1))), asg("f", s.fn("", nil, seq(asg("g", s.fn("", nil, li(2))), li(0)))), cn("f"),
 			asg("g", s.fn("", nil, li(3))), cn("f"), cn("g")}
+	})
+	// a function that calls a function-valued global and THEN rebinds it (the read of a root function is not a miss:
+	// only the write through the already created reference makes the call uncacheable), alone and through callers
+	mk("regress:read-then-write-function-binding", func(s *Session) {
+		lam := func(k int64) *Expr { return s.fn("", nil, li(k)) }
+		nx := s.fn("", nil, seq(asg("v", cn("g")), iff(lt(v("v"), li(1)), asg("g", lam(1)), asg("g", lam(0))), prt(lit(vs("s")), v("v")), v("v")))
+		tw := s.fn("", nil, add(cn("nx"), cn("nx")))
+		tt := s.fn("", nil, add(cn("tw"), li(10)))
+		s.Writers, s.Callers = []int{nx.D}, []int{tw.D, tt.D}
+		s.Inputs = []*Expr{asg("g", lam(0)), asg("nx", nx), cn("nx"), cn("nx"), cn("nx"), cn("g"), asg("tw", tw), asg("tt", tt), cn("tw"), cn("tw"), cn("tt"), cn("tt"),
+			cn("nx"), cn("g")}
 	})
 	// mechanism: output replay, errors, DontCache, > MaxArgs, unhashable, fib
 	mk("mech:print-replay", func(s *Session) {
@@ -1064,6 +1115,108 @@ func (c *Ctx2) redefSession() *Session {
 	return s
 }
 
+// state machines: a function that READS (or calls) an outer binding and then WRITES it in the same call - the binding
+// holds a lambda (flip-flop; the read of a root function is not a miss, so only the write makes the call uncacheable),
+// a number (counter) or a container - called 3-5 times with equal arguments, directly and through 1-2 levels of callers.
+func (c *Ctx2) toggleSession() *Session {
+	s := &Session{Tag: "random-toggle"}
+	r := c.R
+	defIdx := func(e *Expr) int {
+		if e.K == 'A' {
+			e = e.Sub[0]
+		}
+		return e.D
+	}
+	def := func(name string, params []string, body *Expr) *Expr {
+		if r.Bool() {
+			return s.fn(name, params, body)
+		}
+		return asg(name, s.fn("", params, body))
+	}
+	params := [][]string{{}, {"n"}}[r.Intn(2)]
+	args := func() []*Expr {
+		if len(params) == 0 {
+			return nil
+		}
+		return []*Expr{li(1)}
+	}
+	pv := func() []*Expr {
+		if len(params) == 0 {
+			return nil
+		}
+		return []*Expr{v("n")}
+	}
+	kind := r.Intn(6)
+	var init, body *Expr
+	lam := func(k int64) *Expr { return s.fn("", nil, li(k)) }
+	switch kind {
+	case 0: // flip-flop in a function-valued global: call, then rebind
+		init = asg("g", lam(0))
+		body = seq(asg("v", cn("g")), iff(lt(v("v"), li(1)), asg("g", lam(1)), asg("g", lam(0))), v("v"))
+	case 1: // three-state machine
+		init = asg("g", lam(0))
+		body = seq(asg("v", cn("g")), iff(lt(v("v"), li(1)), asg("g", lam(1)), iff(lt(v("v"), li(2)), asg("g", lam(2)), asg("g", lam(0)))), v("v"))
+	case 2: // read the function value (no call), rebind, call the old one
+		init = asg("g", lam(0))
+		body = seq(asg("t", v("g")), asg("v", cn("t")), iff(lt(v("v"), li(1)), asg("g", lam(1)), asg("g", lam(0))), v("v"))
+	case 3: // named redefinition from inside, after the call
+		init = s.fn("g", nil, li(0))
+		body = seq(asg("v", cn("g")), iff(lt(v("v"), li(1)), s.fn("g", nil, li(1)), s.fn("g", nil, li(0))), v("v"))
+	case 4: // counter in a number
+		init = asg("x", li(0))
+		body = seq(asg("v", v("x")), asg("x", add(v("v"), li(1))), v("v"))
+	default: // container that grows
+		init = asg("m", arr(li(0)))
+		body = seq(asg("v", v("m")), asg("m", arr(v("v"), li(1))), prt(v("v")), li(0))
+	}
+	switch r.Intn(3) {
+	case 0:
+		body = seq(prt(lit(vs("s"))), body)
+	case 1:
+		if len(params) > 0 {
+			body = seq(prt(v("n")), body)
+		}
+	}
+	s.Inputs = append(s.Inputs, init)
+	nx := def("nx", params, body)
+	s.Writers = append(s.Writers, defIdx(nx))
+	s.Inputs = append(s.Inputs, nx)
+	names := []string{"nx"}
+	if r.Pct(70) {
+		var tb *Expr
+		if kind == 5 {
+			tb = seq(cn("nx", pv()...), cn("nx", pv()...))
+		} else {
+			tb = add(cn("nx", pv()...), cn("nx", pv()...))
+		}
+		tw := def("tw", params, tb)
+		s.Callers = append(s.Callers, defIdx(tw))
+		s.Inputs = append(s.Inputs, tw)
+		names = append(names, "tw")
+		if r.Bool() {
+			tt := def("tt", params, seq(prt(lit(vs("t"))), cn("tw", pv()...)))
+			s.Callers = append(s.Callers, defIdx(tt))
+			s.Inputs = append(s.Inputs, tt)
+			names = append(names, "tt")
+		}
+	}
+	for i, n := 0, 3+r.Intn(3); i < n; i++ {
+		s.Inputs = append(s.Inputs, cn("nx", args()...))
+	}
+	for i, n := 0, 2+r.Intn(4); i < n; i++ {
+		s.Inputs = append(s.Inputs, cn(names[r.Intn(len(names))], args()...))
+	}
+	switch kind {
+	case 4:
+		s.Inputs = append(s.Inputs, v("x"))
+	case 5:
+		s.Inputs = append(s.Inputs, v("m"))
+	default:
+		s.Inputs = append(s.Inputs, cn("g"))
+	}
+	return s
+}
+
 func runC04(c0 *Ctx) {
 	c := &Ctx2{Ctx: c0, seen: map[string]int{}}
 	log.SetOutput(io.Discard)
@@ -1077,7 +1230,7 @@ func runC04(c0 *Ctx) {
 		"print, log, error, rand/time.now, del, recursion); each run cache on and cache off on the implementation (direct oracle) and on the extracted model. " +
 		"non-trivial = distinct session that ends with a non-empty cache"
 	// every identifier the generator uses must be free in a fresh state (not an extension, not a predefined function)
-	for _, name := range []string{"f", "g", "h", "id", "mk", "a", "b", "c", "d", "w", "k", "x", "y", "t", "n", "m", "p", "q", "r", "s", "X", "N", "F", "fib", "f2", "k4"} {
+	for _, name := range []string{"f", "g", "h", "id", "mk", "a", "b", "c", "d", "w", "k", "x", "y", "t", "n", "m", "p", "q", "r", "s", "X", "N", "F", "fib", "f2", "k4", "v", "nx", "tw", "tt", "m"} {
 		st := eval.NewState()
 		st.Out, st.LogOut = io.Discard, io.Discard
 		res, _ := evalProtected(st, parser.New(lexer.New(name)).ParseProgram())
@@ -1103,6 +1256,8 @@ func runC04(c0 *Ctx) {
 			c.session(c.randomSession(true))
 		case 3:
 			c.session(c.redefSession())
+		case 4:
+			c.session(c.toggleSession())
 		default:
 			c.session(c.randomSession(false))
 		}
